@@ -25,7 +25,7 @@ def run(tier, seed):
     import unyt.dimensions as D
 
     chk = core.Check("C02", tier, seed)
-    chk.proof = core.prove("C02", PROOF_MODULES)
+    chk.proof = core.prove("C02", PROOF_MODULES, tier=tier)
     rng = chk.rng
     model = core.Model()
     ex = gen.extract()
